@@ -123,7 +123,7 @@ func compareRecords(frames []Frame, n int, got []logstorage.Record) string {
 func runC03(r *vk.Run) {
 	r.SetRule("sequences of 0..12 generated records (bodies from adversarial atoms / random bytes, timestamps over 1970..2262 with ns digits and zone offsets, stdout+stderr) are encoded by the harness and decoded by ParseLog. " +
 		"phase roundtrip: x7 read fragmentations. phase truncate: EVERY byte offset as cut point x2 fragmentations. phase corrupt: daemon-error / bad-timestamp / no-space frame at EVERY frame index. phase readerr: non-EOF read error at every byte. " +
-		"non-trivial = distinct (stream, fault position) pairs with at least one record or fault.")
+		"non-trivial = distinct streams (per phase; plus one entry per corrupted frame position) with at least one record; the numbers of cut points, error frames and fired read errors are separate counters.")
 	r.Assume("frame layout [type,0,0,0,len32be] + RFC3339Nano + ' ' + body is Docker's multiplexed framing with timestamps",
 		"a cut after a complete header but before the end of its body counts as 'inside the frame body'",
 		"'never silently dropped' includes: the error must still be reported if Next is called again after it returned false (the range-aggregation consumer does that)")
@@ -136,7 +136,7 @@ func runC03(r *vk.Run) {
 		{Chunk: -1, Seed: 12, EOFWithData: true, FailAt: -1}, {Chunk: 3, ZeroReads: true, FailAt: -1}, {Chunk: 0, EOFWithData: true, FailAt: -1},
 	}
 
-	r.Phase("roundtrip", r.N(400, 8000), func(c *vk.Case) {
+	r.Phase("roundtrip", r.N(400, 200000), func(c *vk.Case) {
 		frames := genFrames(c.Rng, 12)
 		data := EncodeFrames(frames)
 		for pi, plan := range plans {
@@ -177,7 +177,7 @@ func runC03(r *vk.Run) {
 		}
 	})
 
-	r.Phase("truncate", r.N(150, 3000), func(c *vk.Case) {
+	r.Phase("truncate", r.N(150, 60000), func(c *vk.Case) {
 		frames := genFrames(c.Rng, 8)
 		if len(frames) == 0 {
 			frames = genFrames(c.Rng, 8)
@@ -228,15 +228,15 @@ func runC03(r *vk.Run) {
 				}
 			}
 			c.Count("cut_"+where, 1)
-			c.Nontrivial(fmt.Sprintf("cut:%x@%d", data, cut))
 		}
+		c.Nontrivial(fmt.Sprintf("cut:%x", data))
 		if c.Idx == 0 {
 			c.Sample("truncate", map[string]any{"frames": frames, "cuts": len(data) + 1})
 		}
 	})
 
 	corruptKinds := []string{"daemon-error", "bad-timestamp", "no-space", "empty-payload"}
-	r.Phase("corrupt", r.N(300, 6000), func(c *vk.Case) {
+	r.Phase("corrupt", r.N(300, 100000), func(c *vk.Case) {
 		frames := genFrames(c.Rng, 8)
 		for len(frames) == 0 {
 			frames = genFrames(c.Rng, 8)
@@ -283,7 +283,7 @@ func runC03(r *vk.Run) {
 					}
 				}
 				c.Count("error_frames:"+kind, 1)
-				c.Nontrivial(fmt.Sprintf("corrupt:%x", data))
+				c.Nontrivial(fmt.Sprintf("corrupt:%d:%d:%s", c.Idx, i, kind))
 			}
 		}
 		if c.Idx == 0 {
@@ -292,7 +292,7 @@ func runC03(r *vk.Run) {
 	})
 
 	ioErr := errors.New("verif: connection reset")
-	r.Phase("readerr", r.N(100, 2000), func(c *vk.Case) {
+	r.Phase("readerr", r.N(100, 40000), func(c *vk.Case) {
 		frames := genFrames(c.Rng, 6)
 		for len(frames) == 0 {
 			frames = genFrames(c.Rng, 6)
@@ -327,8 +327,8 @@ func runC03(r *vk.Run) {
 				return
 			}
 			c.Count("read_errors_fired", 1)
-			c.Nontrivial(fmt.Sprintf("readerr:%x@%d", data, at))
 		}
+		c.Nontrivial(fmt.Sprintf("readerr:%x", data))
 	})
 	r.Require("streams", 100)
 	r.Require("cut_body", 1000)
